@@ -142,6 +142,38 @@ def run_rename(args):
     return run_roundtrip(args, kind="rename")
 
 
+def run_benign(args):
+    """a behaviour-preserving maintainer change (benign/<id>/patch.diff, written by a sub-agent that saw only the property text):
+    the check must not report a violation; falling below a floor (exit 2) is tolerated and reported"""
+    bid, patch, pid, root, base = args
+    sys.path.insert(0, VERIF)
+    from sa.main import run_property
+    import subprocess
+    tmp = make_copy(root)
+    try:
+        r = subprocess.run(["git", "apply", "--whitespace=nowarn", patch], cwd=tmp, capture_output=True, text=True)
+        if r.returncode != 0:
+            return {"id": f"benign-{bid}-{pid}", "ok": False, "why": f"benign patch does not apply: {r.stderr.strip()[:120]}"}
+        rc, rep = run_property(pid, "quick", tmp, evidence_dir=os.path.join(tmp, "_ev"), quiet=True)
+        refuted = {ob.key for ob in rep.obs if ob.status == "REFUTED"}
+        new = sorted(refuted - set(base))
+        ok = not new and rc != 1
+        return {"id": f"benign-{bid}-{pid}", "ok": ok, "why": ("no violation reported" + (" (analysis incomplete)" if rc == 2 else "")) if ok else f"FALSE ALARM rc={rc} new refutations {new[:3]}"}
+    finally:
+        shutil.rmtree(tmp, ignore_errors=True)
+
+
+def benign_patches():
+    base = os.path.join(VERIF, "benign")
+    out = []
+    if os.path.isdir(base):
+        for d in sorted(os.listdir(base)):
+            p = os.path.join(base, d, "patch.diff")
+            if os.path.exists(p) and os.path.exists(os.path.join(base, d, "meta.json")):
+                out.append((d, p))
+    return out
+
+
 def validate(pids, root="/repo", jobs=16, verbose=True):
     sys.path.insert(0, VERIF)
     mutants = [m for m in load_mutants() if m["property"] in pids]
@@ -159,13 +191,15 @@ def validate(pids, root="/repo", jobs=16, verbose=True):
         futs += [ex.submit(run_invert, (pid, root, base_full[pid])) for pid in pids]
         futs += [ex.submit(run_anf, (pid, root, base_full[pid])) for pid in pids]
         futs += [ex.submit(run_inline, (pid, root, base_full[pid])) for pid in pids]
+        bp = benign_patches()
+        futs += [ex.submit(run_benign, (bid, patch, pid, root, base[pid])) for bid, patch in bp for pid in pids]
         for f in futs:
             results.append(f.result())
     bad = [r for r in results if not r["ok"]]
     if verbose:
         for r in results:
             print(f"selftest {'ok  ' if r['ok'] else 'FAIL'} {r['id']}: {r['why']}")
-        print(f"selftest: {len(results) - len(bad)}/{len(results)} passed ({len(mutants)} mutants, 6 x {len(pids)} round trips: unparse, local-rename, extract-return, invert-if, anf, inline-temps)")
+        print(f"selftest: {len(results) - len(bad)}/{len(results)} passed ({len(mutants)} mutants, 6 x {len(pids)} round trips: unparse, local-rename, extract-return, invert-if, anf, inline-temps; {len(bp)} benign patches x {len(pids)} checks)")
     return bad, results
 
 
